@@ -1,7 +1,7 @@
 (* C06 - libavoid: incremental transactions give what routing from scratch gives.
    Only statements closed by `exact`; proofs live in Avoid/ActionQueue.v and Avoid/HistoryIndep.v. *)
 From Adapt Require Import Num.Qaux Avoid.SegPolyModel Avoid.CertDijkstraModel Avoid.RefRouterModel
-     Avoid.ActionQueueModel Avoid.ActionQueue Avoid.HistoryIndep.
+     Avoid.ActionQueueModel Avoid.ActionQueue Avoid.HistoryIndep Avoid.ActionQueueConn Avoid.ReflectClamped.
 
 Theorem C06_queue_dedup t h st : run (init t) h = Some st -> NoDup (keys (queue st)).
 Proof. exact (queue_dedup t h st). Qed.
@@ -46,3 +46,67 @@ Theorem C06_reflect_point_tight a b c d :
   ((x - c) * (x - c) + d * d) * ((b + d) * (b + d)) == (d * d) * reflect_est_sq a b c d.
 Proof. exact (reflect_point_tight a b c d). Qed.
 Print Assumptions C06_reflect_point_tight.
+
+(* ---- connector ends (Avoid/ActionQueueConn.v): the WHOLE scene after Process - shapes and connector ends - is the
+        one obtained by applying the edits one at a time *)
+Local Open Scope Z_scope.
+Theorem C06_queue_refines_sequential_full t h st :
+  run (init t) (h ++ [Process]) = Some st ->
+  (forall i, lookup (scene st) i = lookup (s_shapes (seq_run h)) i) /\
+  (forall c, lookup (conns st) c = lookup (s_conns (seq_run h)) c).
+Proof. exact (queue_refines_sequential_full t h st). Qed.
+Print Assumptions C06_queue_refines_sequential_full.
+
+(* addConnEndUpdate: a later user update of an end overwrites the queued one = "apply the updates in order" *)
+Theorem C06_user_update_consolidation ups w p :
+  NoDup (map fst ups) -> forall e,
+  fold_left apply_end (add_end_update ups w p) e = apply_end (fold_left apply_end ups e) (w, p).
+Proof. exact (fold_add_end_update ups w p). Qed.
+Print Assumptions C06_user_update_consolidation.
+
+(* ... and a pin-move update (isConnPinMoveUpdate = true) never overwrites a queued update of the same end *)
+Theorem C06_pin_move_no_overwrite ups w p e :
+  fold_left apply_end (add_end_update_gen true ups w p) e =
+  if end_queued ups w then fold_left apply_end ups e else apply_end (fold_left apply_end ups e) (w, p).
+Proof. exact (pin_move_no_overwrite ups w p e). Qed.
+Print Assumptions C06_pin_move_no_overwrite.
+
+Theorem C06_modify_connector_user st c w p : modify_connector false st c w p = step st (MoveEndpoint c w p).
+Proof. exact (modify_connector_user st c w p). Qed.
+Print Assumptions C06_modify_connector_user.
+
+Theorem C06_pin_move_refines st c w p st' :
+  CInv st -> modify_connector true st c w p = Some st' ->
+  CInv st' /\
+  forall c', cview st' c' =
+    if c =? c'
+    then (if match lookup (cq (queue st)) c with Some ups => end_queued ups w | None => false end
+          then cview st c
+          else option_map (fun e => apply_end e (w, p)) (cview st c))
+    else cview st c'.
+Proof. exact (pin_move_refines st c w p st'). Qed.
+Print Assumptions C06_pin_move_refines.
+
+(* ---- the clamped reflection estimate is a lower bound for every path that touches the closed edge *)
+Local Open Scope Q_scope.
+Theorem C06_reflect_lower_bound_clamped a b c d mn mx x L1 L2 e1 e2 :
+  0 <= b -> 0 <= d -> 0 < b + d -> mn <= mx -> mn <= x -> x <= mx ->
+  0 <= L1 -> 0 <= L2 ->
+  (x - a) * (x - a) + b * b <= L1 * L1 -> (x - c) * (x - c) + d * d <= L2 * L2 ->
+  let xc := reflect_x_clamped a b c d mn mx in
+  0 <= e1 -> 0 <= e2 ->
+  e1 * e1 <= (xc - a) * (xc - a) + b * b -> e2 * e2 <= (xc - c) * (xc - c) + d * d ->
+  e1 + e2 <= L1 + L2.
+Proof. exact (reflect_lower_bound_clamped a b c d mn mx x L1 L2 e1 e2). Qed.
+Print Assumptions C06_reflect_lower_bound_clamped.
+
+Theorem C06_reflect_lower_bound_clamped_neg a b c d mn mx x L1 L2 e1 e2 :
+  b <= 0 -> d <= 0 -> b + d < 0 -> mn <= mx -> mn <= x -> x <= mx ->
+  0 <= L1 -> 0 <= L2 ->
+  (x - a) * (x - a) + b * b <= L1 * L1 -> (x - c) * (x - c) + d * d <= L2 * L2 ->
+  let xc := reflect_x_clamped a b c d mn mx in
+  0 <= e1 -> 0 <= e2 ->
+  e1 * e1 <= (xc - a) * (xc - a) + b * b -> e2 * e2 <= (xc - c) * (xc - c) + d * d ->
+  e1 + e2 <= L1 + L2.
+Proof. exact (reflect_lower_bound_clamped_neg a b c d mn mx x L1 L2 e1 e2). Qed.
+Print Assumptions C06_reflect_lower_bound_clamped_neg.
